@@ -262,6 +262,11 @@ fn settings() -> Arc<Settings> {
     )
 }
 
+/// the same with a documented non-default `listen_protocols.http1.upload_buffer_size` (settable through the settings file only)
+fn settings_small_upload_buffer() -> Arc<Settings> {
+    Arc::new(toml::from_str::<Settings>("listen_address = \"127.0.0.1:0\"\n[listen_protocols]\n[listen_protocols.http1]\nupload_buffer_size = 2\n").expect("settings with a small upload buffer"))
+}
+
 const PEER: &str = "192.0.2.7:40123";
 
 impl Sim {
@@ -1523,6 +1528,9 @@ fn main() {
             totality(&mut rep, &st, &heads, maxhead, thorough).await;
         } else {
             replay(&mut rep, &st, &heads, &vectors).await;
+            // the behaviours do not depend on the size of the upload buffer: once more with 2 octets
+            let small = settings_small_upload_buffer();
+            replay(&mut rep, &small, &heads, &vectors).await;
             if !std::env::args().any(|a| a == "--no-sweep") {
                 sweep(&mut rep, &st, &heads, maxhead, thorough).await;
             }
